@@ -143,10 +143,11 @@ where
     /// Get the permissions for the given address.
     pub fn permissions(&self, address: u64) -> Option<MemoryPermissions> {
         let page_address = address & PAGE_MASK;
+        // a page created by a store has no permissions of its own: the backing's still apply
         self.pages
             .get(&page_address)
-            .map(|page| page.permissions().cloned())
-            .unwrap_or_else(|| {
+            .and_then(|page| page.permissions().cloned())
+            .or_else(|| {
                 self.backing()
                     .and_then(|backing| backing.permissions(address))
             })
